@@ -106,3 +106,18 @@ Proof.
   - vm_compute. reflexivity.
 Qed.
 
+
+(* a definite answer does not depend on the fuel (two runs of one table on one input) *)
+Lemma run_fuel_independent_pf : forall T o len f1 f2 i raw pos,
+  simb T T (id_rel (length T)) [] [] = true -> In (i, i) (id_rel (length T)) ->
+  is_abort (fst (run T o len f1 i raw pos)) = false -> is_abort (fst (run T o len f2 i raw pos)) = false ->
+  fst (run T o len f2 i raw pos) = fst (run T o len f1 i raw pos).
+Proof.
+  intros T o len f1 f2 i raw pos Hsim Hi A1 A2.
+  rewrite <- (mapres_id (fst (run T o len f1 i raw pos))).
+  apply (run_sim T T (id_rel (length T)) [] [] o o len len (fun x => x)); auto.
+  - intros t p H. discriminate.
+  - intros t p H. discriminate.
+  - intros a b g1 g2 r p H. contradiction.
+  - intros q _. apply comm_id.
+Qed.
